@@ -46,6 +46,70 @@ func selName(e ast.Expr) string {
 	return ""
 }
 
+// findMethod: method `name` whose receiver type is *recv or recv
+func findMethod(f *ast.File, recv, name string) *ast.FuncDecl {
+	for _, d := range f.Decls {
+		fd, ok := d.(*ast.FuncDecl)
+		if !ok || fd.Name.Name != name || fd.Recv == nil || len(fd.Recv.List) != 1 {
+			continue
+		}
+		t := fd.Recv.List[0].Type
+		if st, ok := t.(*ast.StarExpr); ok {
+			t = st.X
+		}
+		if id, ok := t.(*ast.Ident); ok && id.Name == recv {
+			return fd
+		}
+	}
+	return nil
+}
+
+func isMuCall(e ast.Expr, method string) bool {
+	call, ok := e.(*ast.CallExpr)
+	if !ok || len(call.Args) != 0 {
+		return false
+	}
+	se, ok := call.Fun.(*ast.SelectorExpr)
+	if !ok || se.Sel.Name != method {
+		return false
+	}
+	return selName(se.X) == "mu"
+}
+
+// lockShape: body = { r.mu.Lock(); defer r.mu.Unlock(); ... } with no other (R)Unlock call and no go statement
+func lockShape(fd *ast.FuncDecl) bool {
+	l := fd.Body.List
+	if len(l) < 3 {
+		return false
+	}
+	es, ok := l[0].(*ast.ExprStmt)
+	if !ok || !isMuCall(es.X, "Lock") {
+		return false
+	}
+	ds, ok := l[1].(*ast.DeferStmt)
+	if !ok || !isMuCall(ds.Call, "Unlock") {
+		return false
+	}
+	good := true
+	for _, st := range l[2:] {
+		ast.Inspect(st, func(n ast.Node) bool {
+			switch x := n.(type) {
+			case *ast.GoStmt:
+				good = false
+			case *ast.CallExpr:
+				if se, ok := x.Fun.(*ast.SelectorExpr); ok {
+					switch se.Sel.Name {
+					case "Unlock", "RUnlock", "Lock", "RLock", "TryLock":
+						good = false
+					}
+				}
+			}
+			return true
+		})
+	}
+	return good
+}
+
 func main() {
 	repo := os.Args[1]
 	// 1. const order
@@ -157,6 +221,65 @@ func main() {
 	if !shapeOK {
 		die("fsm.transition no longer has the shape {if !ok {return err}; m.current = ev; m.onTransition(ev); return nil}")
 	}
+	// 3b. the critical section: both reporter methods begin with `r.mu.Lock(); defer r.mu.Unlock()`, release the lock nowhere
+	// else and start no goroutine; the watcher callback is called synchronously (fsm.transition -> m.onTransition(ev) ->
+	// the func literal given to newFSM in componentFSM -> r.onStatusChange(id, ev)).  Reported as DATA (false = shape lost):
+	// the Lean theorem about the sub-step model then no longer checks and the harness's interleaving search looks for a witness.
+	reporterLocked := true
+	for _, name := range []string{"ReportStatus", "ReportOKIfStarting"} {
+		fd := findMethod(sf, "reporter", name)
+		if fd == nil || fd.Body == nil {
+			die("method (*reporter).%s not found", name)
+		}
+		if !lockShape(fd) {
+			reporterLocked = false
+		}
+	}
+	callbackSync := false
+	if fd := findMethod(sf, "fsm", "transition"); fd != nil && fd.Body != nil && len(fd.Body.List) == 4 {
+		if es, ok := fd.Body.List[2].(*ast.ExprStmt); ok {
+			if call, ok := es.X.(*ast.CallExpr); ok && selName(call.Fun) == "onTransition" {
+				callbackSync = true
+			}
+		}
+	}
+	if fd := findMethod(sf, "reporter", "componentFSM"); fd == nil || fd.Body == nil {
+		die("method (*reporter).componentFSM not found")
+	} else {
+		lits := 0
+		ast.Inspect(fd, func(n ast.Node) bool {
+			if _, isGo := n.(*ast.GoStmt); isGo {
+				callbackSync = false
+			}
+			call, ok := n.(*ast.CallExpr)
+			if !ok || selName(call.Fun) != "newFSM" {
+				return true
+			}
+			if len(call.Args) != 1 {
+				die("newFSM call in componentFSM does not take one argument")
+			}
+			fl, ok := call.Args[0].(*ast.FuncLit)
+			if !ok {
+				die("newFSM argument in componentFSM is not a func literal")
+			}
+			lits++
+			okBody := false
+			if len(fl.Body.List) == 1 {
+				if es, ok := fl.Body.List[0].(*ast.ExprStmt); ok {
+					if c2, ok := es.X.(*ast.CallExpr); ok && selName(c2.Fun) == "onStatusChange" {
+						okBody = true
+					}
+				}
+			}
+			if !okBody {
+				callbackSync = false
+			}
+			return true
+		})
+		if lits != 1 {
+			die("componentFSM: expected exactly one newFSM(func literal)")
+		}
+	}
 	// 4. ring capacity
 	hf := parse(filepath.Join(repo, "internal/sharedcomponent/sharedcomponent.go"))
 	ringCap := ""
@@ -201,7 +324,11 @@ func main() {
 	}
 	b.WriteString(strings.Join(os_, ", "))
 	b.WriteString("]\n\n/-- `ring.New(n)` in internal/sharedcomponent/sharedcomponent.go -/\n")
-	fmt.Fprintf(&b, "def ringCap : Nat := %s\n\nend OtelVerif.Gen.StatusTable\n", ringCap)
+	fmt.Fprintf(&b, "def ringCap : Nat := %s\n\n", ringCap)
+	b.WriteString("/-- `reporter.ReportStatus` and `reporter.ReportOKIfStarting` both begin with `r.mu.Lock(); defer r.mu.Unlock()`, release the\nlock nowhere else and start no goroutine (service/internal/status/status.go) -/\n")
+	fmt.Fprintf(&b, "def reporterLocked : Bool := %v\n\n", reporterLocked)
+	b.WriteString("/-- the watcher callback runs synchronously inside the critical section: `fsm.transition` calls `m.onTransition(ev)` as a plain\nstatement and the func literal given to `newFSM` only calls `r.onStatusChange(id, ev)` -/\n")
+	fmt.Fprintf(&b, "def callbackSync : Bool := %v\n\nend OtelVerif.Gen.StatusTable\n", callbackSync)
 	_ = sort.Strings
 	fmt.Print(b.String())
 }
